@@ -76,6 +76,7 @@ fn check_cfg(s: &mut Stats, cfg: &Cfg, cases: &[Case]) {
     for c in cases {
         let io = Arc::new(Mutex::new(AsyncCut::new(c.bytes.clone(), vec![], vec![])));
         let io2 = io.clone();
+        let _call = crate::report::enter(&c.bytes);
         let r = std::panic::catch_unwind(std::panic::AssertUnwindSafe(|| {
             block_on(async {
                 parts.serve(Stream::Verif(Box::pin(Shared(io2)), "127.0.0.1:9".parse().unwrap())).await;
